@@ -56,15 +56,16 @@ SumLen(f, S) == IF S = {} THEN 0 ELSE LET a == CHOOSE a \in S : TRUE IN Cardinal
 
 Perms(S) == {s \in [1..Cardinality(S) -> S] : \A i, j \in 1..Cardinality(S) : i # j => s[i] # s[j]}
 
-(* bags (multisets) as functions element -> positive count *)
+(* bags (multisets) as functions element -> positive count (TLCEval: functions kept in state variables *)
+(* are evaluated eagerly; TLC cannot spill lazy function values to disk)                              *)
 EmptyBag   == <<>>
 BSize(b)   == LET RECURSIVE Sz(_)
                   Sz(S) == IF S = {} THEN 0 ELSE LET x == CHOOSE x \in S : TRUE IN b[x] + Sz(S \ {x})
               IN Sz(DOMAIN b)
 BAdd(b, x) == IF x \in DOMAIN b THEN [b EXCEPT ![x] = @ + 1]
-              ELSE [y \in DOMAIN b \cup {x} |-> IF y = x THEN 1 ELSE b[y]]
-BDel(b, x) == IF b[x] = 1 THEN [y \in DOMAIN b \ {x} |-> b[y]] ELSE [b EXCEPT ![x] = @ - 1]
-SetBag(S)  == [x \in S |-> 1]
+              ELSE TLCEval([y \in DOMAIN b \cup {x} |-> IF y = x THEN 1 ELSE b[y]])
+BDel(b, x) == IF b[x] = 1 THEN TLCEval([y \in DOMAIN b \ {x} |-> b[y]]) ELSE [b EXCEPT ![x] = @ - 1]
+SetBag(S)  == TLCEval([x \in S |-> 1])
 RECURSIVE BAddSeq(_, _)
 BAddSeq(b, s) == IF s = <<>> THEN b ELSE BAddSeq(BAdd(b, Head(s)), Tail(s))
 
@@ -390,8 +391,8 @@ ResetS(p, lost, b) ==
     UNION {
       UNION {
         UNION {{[p |-> f, g |-> {a \in Accts : ~Contiguous(q3, a)}] :
-                  f \in FinishCycleS([q4 EXCEPT !.pn = [a \in Accts |-> IF q4.pend[a] = {} THEN q4.st.nonce[a]
-                                                                          ELSE MaxNonce(q4.pend[a]) + 1]])}
+                  f \in FinishCycleS([q4 EXCEPT !.pn = TLCEval([a \in Accts |-> IF q4.pend[a] = {} THEN q4.st.nonce[a]
+                                                                          ELSE MaxNonce(q4.pend[a]) + 1])])}
                : q4 \in ReheapS([q3 EXCEPT !.bf = b.bf])}
         : q3 \in DemoteSeqS(q2, SetToSeq(PendAccts(q2)))}
       : q2 \in PromoteExecutablesS(q1, SetToSeq(QueueAccts(q1)))}
@@ -400,7 +401,7 @@ ResetS(p, lost, b) ==
 (* ------------------------------ the actions ------------------------------ *)
 
 InitPool(st) ==
-  [pend |-> [a \in Accts |-> {}], queue |-> [a \in Accts |-> {}], all |-> {},
+  [pend |-> TLCEval([a \in Accts |-> {}]), queue |-> TLCEval([a \in Accts |-> {}]), all |-> {},
    urg |-> EmptyBag, flo |-> EmptyBag, stales |-> 0, pn |-> st.nonce, beats |-> <<>>,
    tip |-> 1, bf |-> -1, changes |-> 0, st |-> st]
 
